@@ -351,7 +351,15 @@ EvalRecord(T, E) ==
       dor  == IF det THEN DetOracle(T, E.cap) ELSE <<>>
       \* every recorded roll-out is the unique trajectory of the deterministic model
       same == det /\ \A ri \in 1..Len(E.rolls) : E.rolls[ri].ss = dor.traj
+      \* every roll-out of the evaluation starts at its OWN draw from the initial distribution: the draws E.draws
+      \* (outcomes, in order, observed at the distribution object) can be matched one-to-one to the start states.
+      \* Only judged when the support has >= 2 states (a one-state draw carries no randomness) and draws were seen.
+      nstart(x) == Cardinality({ri \in 1..Len(E.rolls) : E.rolls[ri].ss[1] = x})
+      ndraw(x)  == Cardinality({d \in 1..Len(E.draws) : E.draws[d] = x})
+      startfault == /\ Cardinality(InitSupp(T)) >= 2 /\ Len(E.draws) >= 1
+                    /\ \E x \in St(T) : nstart(x) > ndraw(x)
   IN [tid |-> tid, kind |-> "eval", main |-> main, alt |-> alt, det |-> det, dor |-> dor, same |-> same,
+      startfault |-> startfault, ndraws |-> Len(E.draws),
       \* design-level consistency: on the unique trajectory the averages of the roll-outs ARE the oracle
       detagree |-> (same /\ main.n > 0) =>
                       /\ main.iv = dor.iv
